@@ -37,6 +37,11 @@ type CtxPlan struct {
 	DelayUs      int    `json:"delay_us,omitempty"`
 	Procs        int    `json:"procs"`
 	Reps         int    `json:"reps"`
+	// SlowDeadline: the transport's SetDeadline yields the processor this many
+	// times before it takes effect (a watcher that is slow to act).
+	SlowDeadline int `json:"slow_deadline,omitempty"`
+	// ZeroWindow: the client does not read (blocked scenario): the alert write blocks.
+	ZeroWindow bool `json:"zero_window,omitempty"`
 }
 
 func executeCtx(t *testing.T, prop string, seed uint64, p *CtxPlan) *core.Result {
@@ -70,7 +75,20 @@ func executeCtx(t *testing.T, prop string, seed uint64, p *CtxPlan) *core.Result
 			if p.Frags > 1 {
 				cfg = simnet.LinkCfg{Seg: simnet.SegRandom, MaxSeg: max(1, len(rec)/p.Frags), LatMinUs: p.LatUs, LatMaxUs: p.LatUs + 50}
 			}
-			cc, fc := w.Pipe("c"+name, "f"+name, cfg, simnet.LinkCfg{Seg: simnet.SegWhole})
+			back := simnet.LinkCfg{Seg: simnet.SegWhole}
+			if p.ZeroWindow && p.Blocked {
+				back.Window = -1
+			}
+			cc, fc := w.Pipe("c"+name, "f"+name, cfg, back)
+			if p.SlowDeadline > 0 {
+				fc.DeadlineHook = func(t time.Time) {
+					if !t.IsZero() {
+						for i := 0; i < p.SlowDeadline; i++ {
+							runtime.Gosched()
+						}
+					}
+				}
+			}
 
 			if p.Blocked {
 				// (a) the context ends while NewConn is blocked on an incomplete hello
@@ -170,14 +188,20 @@ func executeCtx(t *testing.T, prop string, seed uint64, p *CtxPlan) *core.Result
 			// long after: the connection must be unaffected
 			time.Sleep(time.Hour)
 			synctest.Wait()
+			// whenever the context ended: once NewConn has returned successfully
+			// nothing may touch the connection's deadlines any more
+			for _, d := range fc.DeadlineCalls() {
+				if d.Seq > retSeq {
+					when := "after the return (" + p.After + ")"
+					if endedDuring {
+						when = "while NewConn was finishing (" + p.InRead + ")"
+					}
+					res.Fail(prop, "ctx", "deadline set on the connection after NewConn returned successfully", "%s(%v) at virtual +%v; context ended %s", d.Kind, d.T.Sub(w.T0), time.Duration(d.At), when)
+					break
+				}
+			}
 			if !endedDuring {
 				res.Probe("ctx_end_after_return")
-				for _, d := range fc.DeadlineCalls() {
-					if d.Seq > retSeq {
-						res.Fail(prop, "ctx", "deadline set on the connection after NewConn returned successfully", "%s(%v) at virtual +%v; context ended after the return (%s)", d.Kind, d.T.Sub(w.T0), time.Duration(d.At), p.After)
-						break
-					}
-				}
 				// later I/O works
 				extra := echbox.Record(23, 0x0303, []byte("later"))
 				cc.Write(extra)
@@ -266,11 +290,13 @@ func genC10(seed uint64, idx int) *Plan {
 	case 5:
 		c.InRead = []string{"cancel", "cancel-gosched"}[r.IntN(2)]
 		c.After = []string{"none", "cancel"}[r.IntN(2)]
+		c.SlowDeadline = []int{0, 10, 200}[r.IntN(3)]
 	case 6, 7:
 		c.Blocked = true
 		c.BlockedBytes = r.IntN(400)
 		c.EndUs = 1 + r.IntN(5000000)
 		c.EndKind = []string{"cancel", "timeout"}[r.IntN(2)]
+		c.ZeroWindow = r.IntN(2) == 0
 		c.Reps = 4
 	}
 	return &Plan{Kind: "ctx", Seed: seed, Ctx: c}
